@@ -81,31 +81,67 @@ func (d *Disj) add(l Lit) bool {
 
 // feasible applies the cheap contradiction rules and the integer bounds.
 func (d *Disj) feasible() bool {
-	// x == c1 and x == c2 with different constants; x == c and x != c handled by add.
+	// equivalence classes of terms under the positive equalities (by key, no congruence over subterms);
+	// a class holds at most one constant, and no negated equality may relate members of one class
+	parent := map[string]string{}
+	var find func(k string) string
+	find = func(k string) string {
+		p, ok := parent[k]
+		if !ok || p == k {
+			return k
+		}
+		r := find(p)
+		parent[k] = r
+		return r
+	}
+	isConst := func(t *Term) bool { return t.K == 'c' || t.K == 'n' }
+	for _, l := range d.L {
+		if l.A.Op == "eq" && !l.Neg && !isConst(l.A.L) && !isConst(l.A.R) {
+			a, b := find(l.A.L.key), find(l.A.R.key)
+			if a != b {
+				parent[a] = b
+			}
+		}
+	}
 	eqConst := map[string]string{}
 	for _, l := range d.L {
 		if l.A.Op == "eq" && !l.Neg {
 			x, c := l.A.L, l.A.R
-			if x.K == 'c' || x.K == 'n' {
+			if isConst(x) {
 				x, c = c, x
 			}
-			if c.K == 'c' || c.K == 'n' {
-				if prev, ok := eqConst[x.key]; ok && prev != c.key {
+			if isConst(c) && !isConst(x) {
+				r := find(x.key)
+				if prev, ok := eqConst[r]; ok && prev != c.key {
 					return false
 				}
-				eqConst[x.key] = c.key
+				eqConst[r] = c.key
 			}
 		}
 	}
-	// x == c together with a negated x == c' is fine; x == nil with deref facts is not checked.
 	for _, l := range d.L {
 		if l.A.Op == "eq" && l.Neg {
 			x, c := l.A.L, l.A.R
-			if x.K == 'c' || x.K == 'n' {
+			if isConst(x) {
 				x, c = c, x
 			}
-			if v, ok := eqConst[x.key]; ok && v == c.key {
-				return false
+			if isConst(x) {
+				continue
+			}
+			if isConst(c) {
+				if v, ok := eqConst[find(x.key)]; ok && v == c.key {
+					return false
+				}
+			} else {
+				rx, rc := find(x.key), find(c.key)
+				if rx == rc {
+					return false
+				}
+				if vx, ok := eqConst[rx]; ok {
+					if vc, ok := eqConst[rc]; ok && vx == vc {
+						return false
+					}
+				}
 			}
 		}
 	}
